@@ -5,7 +5,8 @@
                                                      (a failed CAS reloads next) }
      done():            cur := exchange(head, DONE); run every queued operation state
    Ops start concurrently with done().  Variant "check_once" tests for DONE only after the initial
-   load (the re-check inside the CAS loop is dropped).                                        *)
+   load (the re-check inside the CAS loop is dropped).  Variant "done_load_store": done() loads the head
+   and, if it is null, stores the marker with a plain store instead of exchanging (seeded change C04-2).  *)
 EXTENDS Naturals, FiniteSets
 CONSTANTS Op, Variant
 VARIABLES head,      \* "null" | "done" | an op (top of the stack)
@@ -28,8 +29,13 @@ Cas(o) == /\ pc[o] = "cas"
                                                    THEN "inline" ELSE "cas"]
                      /\ UNCHANGED head
           /\ UNCHANGED <<dpc, captured, grants>>
-DoneXchg == /\ dpc = "idle" /\ captured' = head /\ head' = "done" /\ dpc' = "run"
+DoneXchg == /\ dpc = "idle" /\ captured' = head
+            /\ IF Variant = "done_load_store" /\ head = "null"
+                  THEN dpc' = "store" /\ UNCHANGED head          \* only loaded so far
+                  ELSE head' = "done" /\ dpc' = "run"
             /\ UNCHANGED <<nxt, pc, grants>>
+DoneStore == /\ dpc = "store" /\ head' = "done" /\ dpc' = "run"     \* overwrites whatever was queued meanwhile
+             /\ UNCHANGED <<nxt, pc, captured, grants>>
 \* run the captured list: follow the next pointers
 DoneRun == /\ dpc = "run"
            /\ IF captured \in {"null", "done"} THEN dpc' = "finished" /\ UNCHANGED <<captured, grants, pc>>
@@ -37,8 +43,8 @@ DoneRun == /\ dpc = "run"
                    /\ pc' = [pc EXCEPT ![captured] = "granted"]
                    /\ captured' = nxt[captured] /\ UNCHANGED dpc
            /\ UNCHANGED <<head, nxt>>
-Next == DoneXchg \/ DoneRun \/ \E o \in Op : Load(o) \/ Inline(o) \/ Cas(o)
-Spec == Init /\ [][Next]_vars /\ WF_vars(DoneXchg \/ DoneRun) /\ \A o \in Op : WF_vars(Load(o) \/ Inline(o) \/ Cas(o))
+Next == DoneXchg \/ DoneStore \/ DoneRun \/ \E o \in Op : Load(o) \/ Inline(o) \/ Cas(o)
+Spec == Init /\ [][Next]_vars /\ WF_vars(DoneXchg \/ DoneStore \/ DoneRun) /\ \A o \in Op : WF_vars(Load(o) \/ Inline(o) \/ Cas(o))
 AtMostOnce == \A o \in Op : grants[o] <= 1
 EveryStartedGranted == <>(\A o \in Op : grants[o] = 1)
 =============================================================================
